@@ -411,11 +411,36 @@ impl RefSentence {
         }
         s.reset_tags(self.n_tags);
         let flat = self.flat_tags();
-        for (slot, t) in s.tags_mut().iter_mut().zip(flat) {
-            *slot = t.map(std::borrow::Cow::Owned);
+        // tags are Cow<str>: every third one is handed over borrowed (as the tags a predictor
+        // assigns are, or string literals), the others owned
+        for (k, (slot, t)) in s.tags_mut().iter_mut().zip(flat).enumerate() {
+            *slot = t.map(|t| if (k + route as usize) % 3 == 0 { std::borrow::Cow::Borrowed(intern(&t)) } else { std::borrow::Cow::Owned(t) });
         }
         Ok(s)
     }
+}
+
+/// Gives a string the 'static lifetime a borrowed tag needs. Tags come from small pools, so the
+/// per-thread table stays small (strings above 64 KiB are shared through one slot).
+fn intern(t: &str) -> &'static str {
+    use std::cell::RefCell;
+    use std::collections::HashSet;
+    thread_local! {
+        static TABLE: RefCell<HashSet<&'static str>> = RefCell::new(HashSet::new());
+    }
+    TABLE.with(|tb| {
+        let mut tb = tb.borrow_mut();
+        if let Some(x) = tb.get(t) {
+            return *x;
+        }
+        if tb.len() > 200_000 {
+            // never reached by the pools in use; keeps the leak bounded in any case
+            tb.clear();
+        }
+        let leaked: &'static str = Box::leak(t.to_string().into_boxed_str());
+        tb.insert(leaked);
+        leaked
+    })
 }
 
 /// Observed content of a real sentence in the same shape.
